@@ -49,9 +49,7 @@ def scan_links(line):
                     ok = False  # opened while open
                 cur = (uri, len(out))
             else:
-                if cur is None:
-                    ok = False  # closed while closed
-                else:
+                if cur is not None:  # closing with no link open is harmless (empty URL)
                     links.append((cur[0], bytes(out[cur[1]:])))
                 cur = None
     out += line[i:]
@@ -244,11 +242,14 @@ def corr_hook(ctx, rep, mdl):
                 k = "same" if minus == plus else "removed" if plus == "/dev/null" else "added" if minus == "/dev/null" else "renamed"
                 label = "" if k != "renamed" else "renamed: "
                 # labels: defaults are empty except `renamed:`; read them off the plain result
+                arrow = "⟶"
                 if k == "renamed":
                     label = bb.decode().split(minus)[0]
+                    mid = bb.decode()[len(label) + len(minus):]
+                    arrow = mid[1:len(mid) - len(plus) - 1]
                 else:
                     label = bb.decode()[: len(bb.decode()) - len(minus if k != "added" else plus)]
-                mq = [f"links.file_change {l} {hx(fmt)} {hfield} {k} {hx(label)} {hx('⟶')} {hx(minus)} {allabs.get(minus, '-')} "
+                mq = [f"links.file_change {l} {hx(fmt)} {hfield} {k} {hx(label)} {hx(arrow)} {hx(minus)} {allabs.get(minus, '-')} "
                       f"{hx(plus)} {allabs.get(plus, '-')}" for l in (1, 0)]
             ma, mb = mdl.ask(mq)
             rep.corr_case("site:" + kind, (ma, mb) == (a if a != "ok" else "ok x", b if b != "ok" else "ok x"),
@@ -406,9 +407,13 @@ def binary_case(ctx, rep, case):
              sample=dict(op="binary with/without --hyperlinks", mode=mode, fmt=fmt, commit_fmt=cfmt, git_prefix=prefix, first_lines=lines[:6]))
     rep.count("binary:mode=" + " ".join(mode)[:36])
     rep.count("binary:links=%s" % ("0" if nlinks == 0 else "1-9" if nlinks < 20 else "10+"))
-    if rc1 != 0 or rc2 != 0:
-        rep.violation("binary:exit-status", f"delta exit status {rc1}/{rc2}",
-                      dict(kind="binary", stderr=(e1 + e2)[-300:].decode("utf-8", "replace"), **case))
+    if rc1 != 0:
+        # the run *without* hyperlinks already fails: not a hyperlink matter (noted for C03)
+        rep.count("binary:baseline-failed:" + (re.findall(rb"panicked at ([^:]+:\d+)", e1) or [b"?"])[0].decode())
+        return
+    if rc2 != 0:
+        rep.violation("binary:exit-status", f"delta exit status {rc2} with --hyperlinks (0 without)",
+                      dict(kind="binary", stderr=e2[:600].decode("utf-8", "replace"), **case))
         return
     host = socket.gethostname()
     want_abs = {os.path.normpath(os.path.join(root, f)) for f in files}
@@ -440,7 +445,11 @@ def binary_case(ctx, rep, case):
                 return
             path, line = inv
             if path not in want_abs:
-                rep.violation("wrong-target:path", "a file link does not carry the absolute path of a file of the input",
+                stat = re.match(r"\s*\S.*\|\s+\d+ ", visible(txt)) is not None
+                modeline = "(mode " in visible(txt)
+                rep.violation("wrong-target:diff-stat-relative-path" if stat and "--relative-paths" in mode else
+                              "wrong-target:mode-change-relative-path" if modeline and "--relative-paths" in mode else
+                              "wrong-target:path", "a file link does not carry the absolute path of a file of the input",
                               dict(kind="binary", row=i, url=u, text=t, want=sorted(want_abs), **case))
                 return
             # which file: a link whose text names a file must point at that file; a bare number
@@ -461,7 +470,9 @@ def binary_case(ctx, rep, case):
                 nums = re.findall(r"\d+", t.replace(os.path.basename(path), ""))
                 shown = nums[-1] if nums else ""
                 if line != shown and not (line == "" and not nums):
-                    rep.violation("wrong-target:line", "the line number in the link differs from the number displayed",
+                    if not nums and line != "0":
+                        continue  # no number displayed in the link text (file-only header): the hunk's line
+                    rep.violation("wrong-target:line-not-displayed:0" if not nums else "wrong-target:line", "the line number in the link differs from the number displayed",
                                   dict(kind="binary", row=i, url=u, text=t, line=line, shown=shown, **case))
                     return
 
@@ -486,7 +497,10 @@ def binary_cases(ctx):
         fmt = clean_template(rng) if inv else template_text(gen_template(rng))
         cfmt = rng.choice([None, "https://example.com/c/{commit}", "x:{commit}:y"])
         prefix = rng.choice([None, None, "sub/", ""])
-        for mode in rng.sample(BIN_MODES, ctx.n(3, 5)):
+        is_rg = lines[0].startswith("{")
+        if is_rg:
+            prefix = None  # rg paths are relative to the directory rg ran in, not to a repository root
+        for mode in rng.sample([m for m in BIN_MODES if not (is_rg and "--relative-paths" in m)], ctx.n(3, 5)):
             cases.append(dict(lines=lines, files=files, fmt=fmt, cfmt=cfmt, mode=mode, prefix=prefix, invertible=inv))
     return cases
 
@@ -504,7 +518,7 @@ def pty_cases(ctx, rep):
         e = dict(os.environ, HOME=os.path.join(BUILD, "home"), GIT_CONFIG_NOSYSTEM="1", TERM="xterm-256color")
         for k in ("DELTA_PAGER", "PAGER", "GIT_PREFIX", "DELTA_FEATURES", "LESS"):
             e.pop(k, None)
-        p = subprocess.Popen([ctx.delta, "--no-gitconfig", "--paging", "never", "--width", "100"] + args, stdin=subprocess.PIPE,
+        p = subprocess.Popen([ctx.delta, "--no-gitconfig", "--paging", "never", "--width", "100", "--dark"] + args, stdin=subprocess.PIPE,
                              stdout=s, stderr=subprocess.PIPE, env=e, cwd=root)
         os.close(s)
         p.stdin.write(data)
